@@ -1,5 +1,6 @@
 import Ruint.Model.Div
 import Ruint.Gen.WordsDivLoops
+import Ruint.Gen.WordsKnuth
 import Ruint.Gen.WordsDiv
 /-! Driver for C14: evaluates the model (`Ruint.Div.*` on limb lists) and the spec (`Nat` `/`, `%`).
 
@@ -47,21 +48,26 @@ def handle (args : List String) (_impl : String) : String × String :=
         -- normalised divisors: the loops GENERATED from the source (`Props/C14.gen_div_nx1_normalized_eq`, `…nx2…`)
         | "nx1n" => if 2 ^ 63 ≤ d ∧ d < 2 ^ 64 then Ruint.Gen.div_nx1_normalized (l.length + 1) l d
                     else divNx1Normalized l d
-        | "nx1" => divNx1 l d
+        -- un-normalised divisors: the whole functions GENERATED from small.rs (`Props/C14.gen_div_nx1_eq`, `gen_div_nx2_eq`)
+        | "nx1" => if 0 < d ∧ d < 2 ^ 64 ∧ l ≠ [] then Ruint.Gen.div_nx1 (l.length + 1) l d else divNx1 l d
         | "nx2n" => if 2 ^ 127 ≤ d ∧ d < 2 ^ 128 then Ruint.Gen.div_nx2_normalized (l.length + 1) l d
                     else divNx2Normalized l d
-        | _ => divNx2 l d
+        | _ => if 2 ^ 64 ≤ d ∧ d < 2 ^ 128 ∧ l ≠ [] then Ruint.Gen.div_nx2 (l.length + 1) l d else divNx2 l d
       (ll m.1 ++ " " ++ toHex m.2, ll (toLimbs l.length (n / d)) ++ " " ++ toHex (n % d))
     | "nxm" =>
       let num := parseLimbs a; let ds := parseLimbs b
       let n := Ruint.val num; let d := Ruint.val ds
-      let m := divNxm num ds
+      -- Knuth D GENERATED from knuth.rs on its documented domain (`Props/C14.gen_div_nxm_eq`)
+      let m := if 3 ≤ ds.length ∧ ds.length ≤ num.length ∧ 0 < ds.getD (ds.length - 1) 0
+        then Ruint.Gen.div_nxm (num.length + 2) num ds else divNxm num ds
       (ll m.1 ++ " " ++ ll m.2, ll (toLimbs num.length (n / d)) ++ " " ++ ll (toLimbs ds.length (n % d)))
     | "nxmn" =>
       let num := parseLimbs a; let ds := parseLimbs b
       let n := Ruint.val num; let d := Ruint.val ds
+      -- when the model does not panic: the function GENERATED from knuth.rs (`Props/C14.gen_div_nxm_normalized_eq`)
       let m := match divNxmNormalized num ds with
-        | some r => ll r
+        | some r => if 2 ≤ ds.length ∧ 2 ^ 63 ≤ ds.getD (ds.length - 1) 0
+            then ll (Ruint.Gen.div_nxm_normalized (num.length + 2) num ds) else ll r
         | none => "panic"
       -- the layout has room for `|num| - |ds|` quotient limbs above the `|ds|` remainder limbs
       let s := if num.length < ds.length then "pred:false numerator shorter than divisor (outside the documented domain)"
@@ -73,7 +79,8 @@ def handle (args : List String) (_impl : String) : String × String :=
     | "div" =>
       let num := parseLimbs a; let ds := parseLimbs b
       let n := Ruint.val num; let d := Ruint.val ds
-      let m := match div num ds with
+      -- `algorithms::div` GENERATED from div/mod.rs, total (`Props/C14.gen_div_eq`): `none` = the `expect` panic
+      let m := match Ruint.Gen.div (num.length + 2) num ds with
         | some r => ll r.1 ++ " " ++ ll r.2
         | none => "panic"
       let s := if d = 0 then "panic"
